@@ -302,6 +302,31 @@ def run_invariance(ctx):
             if not close(base, aft, tol, tol):
                 ctx.fail('invariance:cosine', sig, f'{m} changed under positive scaling by {sc}: '
                          f'{maxdiff(base, aft)}', dict(v1=v1, v2=v2, scale=sc, sigma_k=sig_s))
+    # the same invariances for the valid RDMs of a stack that also holds a zero-norm RDM (an all-zero RDM for the
+    # cosine family, a constant RDM -- e.g. a null model -- for the correlation family): the library takes another
+    # code path then
+    if rng.integers(3) == 0:
+        off_d = float(rng.uniform(-5, 5))
+        for fam, measures in (('cosine', COS_MEASURES), ('corr', CORR_MEASURES)):
+            row = np.zeros((1, v1.shape[1])) if fam == 'cosine' else np.full((1, v1.shape[1]), float(rng.uniform(0.5, 3)))
+            pos = int(rng.integers(v1.shape[0] + 1))
+            v1d = np.concatenate([v1[:pos], row, v1[pos:]])
+            v2m = v2 * sc if fam == 'cosine' else v2 * sc + off_d
+            for m in measures:
+                sig = dict(measure=m, map='scale' if fam == 'cosine' else 'affine', sigma='none', beside_degenerate=True)
+                ok, base = ctx.guarded('invariance:' + fam, sig, compare, RDMs(v1d.copy()), RDMs(v2.copy()), method=m)
+                ok2, aft = ctx.guarded('invariance:' + fam, sig, compare, RDMs(v1d.copy()), RDMs(v2m.copy()), method=m)
+                ok3, aft_t = ctx.guarded('invariance:' + fam, sig, compare, RDMs(v2m.copy()), RDMs(v1d.copy()), method=m)
+                if ok and ok2 and ok3:
+                    ctx.case('invariance:' + fam, sig)
+                    tol = 2e-4 if m.endswith('_cov') else 1e-8
+                    valid = [i for i in range(v1d.shape[0]) if i != pos]
+                    if not close(np.asarray(base)[valid], np.asarray(aft)[valid], tol, tol) or \
+                            not close(np.asarray(base)[valid], np.asarray(aft_t).T[valid], tol, tol):
+                        ctx.fail('invariance:' + fam, dict(sig, what='beside_degenerate'), f'{m}: values of the valid RDMs '
+                                 f'changed under a positive {"scaling" if fam == "cosine" else "affine map"} of the other '
+                                 f'stack when a zero-norm RDM is in the stack: {maxdiff(np.asarray(base)[valid], np.asarray(aft)[valid])}',
+                                 dict(v1=v1d, v2=v2, scale=sc, offset=off_d if fam == 'corr' else 0.0))
     # correlation family: positive affine maps
     off = float(rng.uniform(-5, 5))
     for m in CORR_MEASURES:
